@@ -47,10 +47,11 @@ type XEntry struct {
 
 // XEnum is an enum (or the part of an enum) defined by one file.
 type XEnum struct {
-	Name    string
-	Bitmask bool
-	Desc    string
-	Entries []XEntry
+	AttrStyle int // how the bitmask attribute is spelled (0..3), see XML()
+	Name      string
+	Bitmask   bool
+	Desc      string
+	Entries   []XEntry
 }
 
 // XFile is one XML definition file.
@@ -91,9 +92,17 @@ func (f XFile) XML() string {
 	}
 	b.WriteString("  <enums>\n")
 	for _, e := range f.Enums {
+		// the attribute is an xs:boolean: true/1 and false/0 (or absent) are its legal spellings
 		bm := ""
-		if e.Bitmask {
+		switch {
+		case e.Bitmask && e.AttrStyle%2 == 1:
+			bm = ` bitmask="1"`
+		case e.Bitmask:
 			bm = ` bitmask="true"`
+		case e.AttrStyle == 1:
+			bm = ` bitmask="false"`
+		case e.AttrStyle == 2:
+			bm = ` bitmask="0"`
 		}
 		fmt.Fprintf(&b, "    <enum name=\"%s\"%s>\n", e.Name, bm)
 		if e.Desc != "" {
